@@ -1,11 +1,29 @@
 (* C04 - Stream management never loses, duplicates or misnumbers outbound stanzas.
-   Statements only; proofs are in Proofs/SmProofs.v. *)
-Require Import LV.Common.Bytes LV.Model.SmModel LV.Spec.SmSpec LV.Proofs.SmProofs.
+   Statements only; proofs are in Proofs/SmProofs.v, SmFlagsProofs.v, SmRetainedProofs.v.
+
+   `sys_run bt sys0 l` runs the model of the stream-management bookkeeping (Model/SmModel.v: event.c send loop,
+   _send_raw, _conn_sm_handle_stanza, _handle_sm, _sm_queue_cleanup/_resend, conn_disconnect, _conn_reset ...)
+   together with the ghost server of Spec/SmSpec.v over an arbitrary history `l`: user sends, write phases with any
+   partial-write schedule, inbound elements of every kind with any h at any time, stream end, connection loss,
+   any number of reconnects.  `all_honest` asks one thing of the server: an accepted <resumed h> carries its own
+   count (what it reported before <= h <= what the client wrote, fewer than 2^32 stanzas on the session). *)
+Require Import LV.Common.Bytes LV.Model.SmModel LV.Spec.SmSpec LV.Proofs.SmProofs LV.Proofs.SmFlagsProofs
+               LV.Proofs.SmRetainedProofs.
+From Coq Require Import Permutation.
 Local Open Scope Z_scope.
 
-(* <a h> on an established session, SM queue numbered increasingly (see sm_retained): exactly the elements numbered
-   below h are released - nothing newer -, the send queue and the client's count are untouched, and a new <r/> may
-   be requested. *)
+(* The SM queue is exactly the stanzas of the logical session that were written completely while stream management
+   was on and that no server report has covered yet, in order, numbered consecutively (mod 2^32) from the number
+   of reported ones up to sm_sent_nr - 1; and sm_sent_nr is the server's count for the session (mod 2^32) -
+   whenever client and server refer to the same logical session (g_sync), also while it is suspended. *)
+Theorem sm_retained :
+  forall bt l, all_honest bt sys0 l -> retained (sys_run bt sys0 l).
+Proof. exact c04_retained. Qed.
+Print Assumptions sm_retained.
+
+(* <a h> on an established session whose SM queue is numbered increasingly (sm_retained, no wrap inside the
+   queue): exactly the elements numbered below h are released - nothing newer -, the send queue and the client's
+   count are untouched, and a new <r/> may be requested. *)
 Theorem sm_ack_exact :
   forall bt st h,
     connected st = true -> sm_enabled st = true -> h_sm st = false -> hs_sorted (smq st) ->
@@ -15,3 +33,71 @@ Theorem sm_ack_exact :
     sq (fst r) = sq st /\ sent_nr (fst r) = sent_nr st /\ r_sent (fst r) = false.
 Proof. exact c04_ack_exact. Qed.
 Print Assumptions sm_ack_exact.
+
+(* <resumed h> accepted: exactly the elements numbered h and above are queued again, once, in their order, behind
+   what the send queue holds (nothing countable can be there: sm_resends_first), the rest is released, the SM
+   queue is empty, the client's count is h - in step with the server's by sm_retained - and the negotiation is
+   complete. *)
+Theorem sm_resume_exact :
+  forall bt st pv h,
+    connected st = true -> h_sm st = true -> previd st = Some pv -> hs_sorted (smq st) ->
+    Forall (fun e => s_owner e = OUser) (smq st) ->
+    let r := dispatch bt st (ISm (SmResumed (Some pv) (Some h))) in
+    smq (fst r) = [] /\
+    sqc (fst r) = sqc st ++ map s_gid (filter (fun e => h <=? s_h e) (smq st)) /\
+    In (OG (GRelease (map s_gid (filter (fun e => s_h e <? h) (smq st))))) (snd r) /\
+    sent_nr (fst r) = w32 h /\ sm_enabled (fst r) = true /\ neg_done (fst r) = true.
+Proof. exact c04_resumed_step. Qed.
+Print Assumptions sm_resume_exact.
+
+(* "ahead of anything new": while the negotiation is running the send queue holds nothing countable, so what
+   <resumed/> or <enabled/> re-queues is written before anything the user submits afterwards; and a session that
+   is being enabled starts counting at 0. *)
+Theorem sm_resends_first :
+  forall bt l,
+    all_honest bt sys0 l ->
+    let st := fst (sys_run bt sys0 l) in
+    (connected st = true -> neg_done st = false -> sqc st = []) /\
+    (connected st = true -> h_sm st = true -> sm_enabled st = true -> sent_nr st = 0).
+Proof. exact c04_negotiation_clean. Qed.
+Print Assumptions sm_resends_first.
+
+(* resumption failed: with item-not-found only what the server reports as handled (h, if it gives one) is
+   released, any other <failed/> releases nothing; when the new session is enabled the whole SM queue is queued
+   again, in order, and the SM queue is empty. *)
+Theorem sm_failed_resends :
+  (forall bt st h,
+     connected st = true -> h_sm st = true -> resume st = true -> hs_sorted (smq st) ->
+     let hv := match h with Some v => v | None => 0 end in
+     let r := dispatch bt st (ISm (SmFailed FItemNotFound h)) in
+     smq (fst r) = filter (fun e => hv <=? s_h e) (smq st) /\
+     In (OG (GRelease (map s_gid (filter (fun e => s_h e <? hv) (smq st))))) (snd r) /\
+     sm_enabled (fst r) = false) /\
+  (forall bt st c h,
+     connected st = true -> h_sm st = true -> c <> FItemNotFound ->
+     smq (fst (dispatch bt st (ISm (SmFailed c h)))) = smq st) /\
+  (forall bt st ra id,
+     connected st = true -> h_sm st = true -> sm_enabled st = true -> (ra = true -> id <> None) ->
+     Forall (fun e => s_owner e = OUser) (smq st) ->
+     let r := dispatch bt st (ISm (SmEnabled ra id)) in
+     smq (fst r) = [] /\ sqc (fst r) = sqc st ++ smqg st /\ handled_nr (fst r) = 0 /\ neg_done (fst r) = true).
+Proof. exact (conj c04_failed_step (conj c04_failed_keeps c04_enabled_step)). Qed.
+Print Assumptions sm_failed_resends.
+
+(* Nothing is lost, nothing is duplicated.  On every history (no assumption on the server) every countable element
+   that ever entered the send queue is in exactly one place: still in the send queue, retained in the SM queue,
+   released after a server report, written while stream management was off, or discarded by a reconnect while it
+   was in the send queue - never written completely (g_disc_fresh) or re-queued (g_disc_resent).  Outside the known
+   class C04-resend-lost-on-reconnect the last list is empty.  With an honest server no logical session receives a
+   stanza twice, and everything that was released had been counted by the server. *)
+Theorem sm_no_loss_no_dup :
+  (forall bt l, conserved (sys_run bt sys0 l)) /\
+  (forall bt l s, known_C04_resend_lost bt s l = false ->
+                  g_disc_resent (snd (sys_run bt s l)) = g_disc_resent (snd s)) /\
+  (forall bt l, all_honest bt sys0 l ->
+                sessions_nodup (snd (sys_run bt sys0 l)) /\ released_were_received (snd (sys_run bt sys0 l))).
+Proof.
+  exact (conj c04_conserved (conj c04_known_class
+           (fun bt l H => conj (c04_sessions_nodup bt l H) (c04_released_received bt l H)))).
+Qed.
+Print Assumptions sm_no_loss_no_dup.
